@@ -78,7 +78,7 @@ func (c *Client) ReadCoils(id byte, coil, count uint16) ([]bool, error) {
 		fmt.Printf("Modbus client Readcoils ID:0x%x resp:%v\n", id, resp)
 	}
 
-	return resp.RespReadBits()
+	return resp.RespReadBitsCount(int(count))
 }
 
 // WriteSingleCoil is used to read modbus coils
@@ -181,7 +181,7 @@ func (c *Client) ReadDiscreteInputs(id byte, input, count uint16) ([]bool, error
 		return []bool{}, errors.New("resp contains wrong function code")
 	}
 
-	return resp.RespReadBits()
+	return resp.RespReadBitsCount(int(count))
 }
 
 // ReadHoldingRegs is used to read modbus coils
